@@ -171,6 +171,14 @@ def _fits_float(x):
         return False
 
 
+def _timeout_ns_finite(x):
+    """a timeout in milliseconds whose nanosecond form (computed through float seconds, as the timers do) is finite"""
+    try:
+        return math.isfinite(float(x) / 1000 * 1e9)
+    except OverflowError:
+        return False
+
+
 class ImplError(Exception):
     pass
 
@@ -361,6 +369,20 @@ class ImplRunner:
             res = 'exc %s' % type(e).__name__
         self.finish(i, line, res)
 
+    def do_set_address(self, op):
+        i = op['i']
+        a = op['addr']
+        line = ' '.join(['setaddr', str(i)] + all_addr_tokens(a))
+        if i not in self.layers:
+            self.plain(line, 'bad-layer')
+            return
+        try:
+            self.layers[i].set_address(make_address(a))
+            res = 'ok'
+        except Exception as e:
+            res = 'exc %s' % type(e).__name__
+        self.finish(i, line, res)
+
     def do_genclose(self, op):
         """the owner of a generator closes it while the layer is still sending from it: from now on it yields nothing"""
         i, rid = op['i'], op['id']
@@ -543,7 +565,7 @@ class ImplRunner:
             toks = [t if not t.startswith('rate_limit_window_size=') else 'rate_limit_window_size=finf' for t in toks]
         for tk in ('rx_flowcontrol_timeout', 'rx_consecutive_frame_timeout'):      # the timers work with float seconds
             v = raw.get(tk)
-            if isinstance(v, int) and not isinstance(v, bool) and not _fits_float(v):
+            if isinstance(v, int) and not isinstance(v, bool) and not _timeout_ns_finite(v):
                 toks = [t if not t.startswith(tk + '=') else tk + '=finf' for t in toks]
         if isinstance(br, int) and isinstance(w, (int, float)):
             try:
